@@ -351,6 +351,10 @@ func execOp(line string) (res string) {
 	defer func() {
 		if r := recover(); r != nil {
 			res = "panic"
+			// a malformed op line (generator bug) is not a panic of the library
+			if s, ok := r.(string); ok && (strings.HasPrefix(s, "bad ") || strings.HasPrefix(s, "unknown model") || strings.HasPrefix(s, "unsupported colour")) {
+				res = "bad-op " + s
+			}
 		}
 	}()
 	if f[0] == "mut" && len(f) == 5 && f[1] == "aztec" {
